@@ -20,10 +20,15 @@ def correspondence(ctx):
     _spec.loader.exec_module(mod)
     quick = ctx.tier == 'quick'
     seed = ctx.rng.randrange(1, 10 ** 4)
-    cs = mod.cases(seed, 24 if quick else 300)
+    cs = common.safe_cases(ctx, NAME, lambda: mod.cases(seed, 24 if quick else 300))
+    if cs is None:
+        return
     texts = []
     for c in cs:
-        texts.append(mod.render(c))
+        t = common.safe_render(ctx, NAME, mod.render, c)
+        if t is None:
+            continue
+        texts.append(t)
         ctx.case(('udfparse', len(texts[-1]) // 1500), True)
     ctx.count('udfparse:histories', len(cs))
     bad, err = common.coq_bad_cases('udfparse', ['From PV.Model Require Import UdfLayout UdfParse.'], [], 'udfparse_case', texts,
